@@ -123,10 +123,23 @@ fn make_array(rng: &mut Rng, kind: u64, n: usize, nullable: bool) -> (ArrayRef, 
 }
 
 fn round_trip(rt: &tokio::runtime::Runtime, field: Field, arrays: Vec<ArrayRef>, version: LanceFileVersion) -> Result<bool, String> {
+    round_trip_v(rt, field, arrays, version, false)
+}
+
+fn round_trip_v(rt: &tokio::runtime::Runtime, field: Field, arrays: Vec<ArrayRef>, version: LanceFileVersion, verbose: bool) -> Result<bool, String> {
     let schema = Arc::new(Schema::new(vec![field]));
     let batches: Vec<RecordBatch> = arrays.iter().map(|a| RecordBatch::try_new(schema.clone(), vec![a.clone()]).unwrap()).collect();
     let expected = arrow_select::concat::concat(&arrays.iter().map(|a| a.as_ref()).collect::<Vec<_>>()).map_err(|e| e.to_string())?;
-    let res = catch(|| {
+    let guard = |f: &mut dyn FnMut() -> Vec<RecordBatch>| -> Result<Vec<RecordBatch>, bool> {
+        if verbose {
+            std::panic::catch_unwind(std::panic::AssertUnwindSafe(f)).map_err(|_| true)
+        } else {
+            catch(f)
+        }
+    };
+    let mut batches_opt = Some(batches);
+    let res = guard(&mut || {
+        let batches = batches_opt.take().unwrap();
         rt.block_on(async {
             let fs = FsFixture::default();
             let reader = RecordBatchIterator::new(batches.into_iter().map(Ok), schema.clone());
@@ -237,15 +250,15 @@ pub fn run(args: &Args, sink: &mut Sink, rng: &mut Rng) {
 pub fn probe(rng: &mut Rng) {
     use arrow_array::*;
     let rt = tokio::runtime::Builder::new_multi_thread().worker_threads(4).enable_all().build().unwrap();
-    for (short, long, len, comp) in [(512usize, 512usize, 250usize, ""), (256, 256, 255, ""), (512, 512, 250, "none"), (64, 64, 250, ""), (128, 128, 200, "none"), (1024, 1024, 60, "none")] {
-        let strs: Vec<String> = (0..short + long).map(|i| if i < short { String::new() } else { (0..len).map(|_| (b' ' + rng.below(90) as u8) as char).collect() }).collect();
+    for (short, long, len, comp) in [(512usize, 512usize, 250usize, ""), (256, 256, 255, ""), (512, 512, 250, "none"), (64, 64, 250, ""), (128, 128, 200, "none"), (1024, 1024, 60, "none"), (300, 300, 255, "none")] {
+        let strs: Vec<String> = (0..short + long).map(|i| if i < short { format!("{:x}", i) } else { (0..len).map(|_| (b' ' + rng.below(90) as u8) as char).collect() }).collect();
         let arr: ArrayRef = Arc::new(StringArray::from(strs));
         let mut md = HashMap::new();
         if !comp.is_empty() {
             md.insert("lance-encoding:compression".to_string(), comp.to_string());
         }
         let field = Field::new("c", DataType::Utf8, true).with_metadata(md);
-        let r = round_trip(&rt, field, vec![arr], LanceFileVersion::V2_1);
+        let r = round_trip_v(&rt, field, vec![arr], LanceFileVersion::V2_1, true);
         println!("probe short={short} long={long} len={len} comp={comp:?}: {r:?}");
     }
 }
